@@ -1,8 +1,12 @@
 package props
 
 import (
+	"go/types"
+
 	"astverif/layout"
+	"astverif/lin"
 	"astverif/tables"
+	"golang.org/x/tools/go/ssa"
 )
 
 func init() { register("C14", "other", c14) }
@@ -35,5 +39,56 @@ func c14(c *Ctx) {
 	ck1.ReportNarrow(r)
 	for _, d := range ck1.IP.Diag {
 		r.Unknown("A0", "diag/L1/"+d, "", d)
+	}
+	c14Values(c)
+}
+
+// c14Values: field-level round trip of the descriptor bodies. One descriptor of every tag class, with its inner
+// lists unrolled to 0, 1 and 2 items, is written by writeDescriptorsWithLength and handed to parseDescriptors.
+func c14Values(c *Ctx) {
+	r := c.R
+	ck := layout.NewBits(c.P)
+	ck.UnrollFor = func(f *ssa.Function, elem types.Type) []int {
+		if p, ok := elem.Underlying().(*types.Pointer); ok {
+			if n, ok := p.Elem().(*types.Named); ok && n.Obj().Name() == "Descriptor" {
+				return []int{0, 1}
+			}
+		}
+		return []int{0, 1, 2}
+	}
+	ck.A3(r, []layout.RTPair{
+		{Name: "descriptors", Writer: c.fn("writeDescriptorsWithLength"), Parser: c.fn("parseDescriptors"), WriterObj: "$w", It: "$i", Root: "$ds", MinSources: 300, Guided: true,
+			Computed: map[string]func(*layout.Source) *lin.Form{
+				// descriptor_length is recomputed by the writer: the parsed value must be the number of body bytes (the
+				// stream is the 2-byte loop length, tag, length, body)
+				"[].Length": func(src *layout.Source) *lin.Form {
+					if !src.TotalOK || !layout.Div8(src.Total) {
+						return nil
+					}
+					f := layout.ScaleDown8(src.Total).AddC(-4)
+					return &f
+				},
+				// the tag of an unknown descriptor is copied from the descriptor's own tag
+				"[].Unknown.Tag": func(*layout.Source) *lin.Form { f := lin.Sym("$ds/[0].Tag"); return &f },
+				"[].LocalTimeOffset.Items[].LocalTimeOffset": exempt,
+				"[].LocalTimeOffset.Items[].NextTimeOffset":  exempt,
+				"[].LocalTimeOffset.Items[].TimeOfChange":    exempt,
+				"[].MaximumBitrate.Bitrate":                  exempt,
+				"[].Teletext.Items[].Page":                   exempt,
+				"[].VBITeletext.Items[].Page":                exempt,
+			},
+			Why: map[string]string{
+				"[].Length": "the emitted length is not a whole number of bytes",
+				"[].LocalTimeOffset.Items[].LocalTimeOffset": "BCD hours/minutes arithmetic (value-level, see C15: not decidable statically); only the 16 bits' position is covered by the consumption check",
+				"[].LocalTimeOffset.Items[].NextTimeOffset":  "BCD hours/minutes arithmetic (see C15)",
+				"[].LocalTimeOffset.Items[].TimeOfChange":    "MJD/BCD calendar arithmetic (see C15)",
+				"[].MaximumBitrate.Bitrate":                  "the stream carries Bitrate/50: only multiples of 50 round-trip (arithmetic, not a bit layout)",
+				"[].Teletext.Items[].Page":                   "the page number is split into a magazine number and two BCD digits (arithmetic)",
+				"[].VBITeletext.Items[].Page":                "the page number is split into a magazine number and two BCD digits (arithmetic)",
+			},
+		},
+	})
+	for _, d := range ck.IP.Diag {
+		r.Unknown("A0", "diag/values/"+d, "", d)
 	}
 }
